@@ -59,6 +59,12 @@ def build_runs(tier, seed):
     runs.append({'kind': 'long', 'texts': ["INSERT INTO X VALUES ('" + "a''" * 20000 + "');", '-- ' + 'x' * 100000,
                                            "'" + 'b' * 50000, '"' + 'c' * 50000, '(' * 3000, '1' * 5000 + '.'],
                  'build_every': 6})
+    # numbers beyond what int() converts (4300 digits) in every column type and in an undeclared table
+    big = '9' * 5000
+    for k, v in enumerate((big, big + '.5', '-' + big)):
+        runs.append({'kind': 'long', 'texts': ['CREATE TABLE X%d%s (A %s);\nINSERT INTO X%d%s VALUES (%s);' % (k, ty[:1], ty, k, ty[:1], v)
+                                               for ty in ('INTEGER', 'REAL', 'UNIQUE_ID', 'STRING', 'BOOLEAN')] +
+                     ['INSERT INTO Y%d VALUES (%s);' % (k, v)], 'build_every': 1})
     return runs
 
 
